@@ -1101,7 +1101,7 @@ pub fn generate(run_seed: u64, index: u64) -> Script {
         let mut blocks: Vec<Vec<InstrSpec>> = Vec::new();
         let mut edges: Vec<EdgeSpec> = Vec::new();
         for bi in 0..nblocks {
-            let n = g.rng.range(0, 4);
+            let n = if g.rng.chance(1, 5) { g.rng.range(4, 7) } else { g.rng.range(0, 4) };
             let mut instrs = Vec::new();
             for _ in 0..n {
                 let op = match g.rng.below(20) {
@@ -1194,11 +1194,26 @@ pub fn generate(run_seed: u64, index: u64) -> Script {
             }
             blocks.push(instrs);
         }
+        // sometimes remove instructions again (never a block's last one, which may be the
+        // Branch terminator): instruction indices then differ from positions
+        let mut removed = Vec::new();
+        if g.rng.chance(1, 3) {
+            let mut lens: Vec<usize> = blocks.iter().map(|b| b.len()).collect();
+            for _ in 0..g.rng.range(1, 3) {
+                let b = g.rng.usize_below(nblocks);
+                if lens[b] >= 2 {
+                    let pos = g.rng.usize_below(lens[b] - 1);
+                    removed.push((b, pos));
+                    lens[b] -= 1;
+                }
+            }
+        }
         funcs.push(FuncSpec {
             address: 0x10_0000 + 0x1000 * fi as u64 + 0x8_0000,
             blocks,
             edges,
             entry: 0,
+            removed,
         });
     }
 
